@@ -13,7 +13,9 @@ import time
 from concurrent.futures import ThreadPoolExecutor
 
 VERIF = "/verif"
-REPO = "/repo"
+# The registered commands always verify /repo. VERIF_REPO lets the seeded-change
+# experiments point the same machinery at a scratch worktree instead.
+REPO = os.environ.get("VERIF_REPO", "/repo")
 HOOKS = os.path.join(VERIF, "hooks")
 SCRATCH_BASE = "/var/tmp"
 
@@ -350,15 +352,29 @@ class Run:
 
     # -- phase A
     def build_vdump(self):
-        tdir = os.path.join(VERIF, ".cache", "vdump-target")
+        import fcntl
+        import hashlib
+        tag = "" if REPO == "/repo" else "-" + hashlib.md5(REPO.encode()).hexdigest()[:8]
+        tdir = os.path.join(VERIF, ".cache", "vdump-target" + tag)
         os.makedirs(tdir, exist_ok=True)
-        lock = os.path.join(VERIF, "vdump", "Cargo.lock")
+        vsrc = os.path.join(VERIF, "vdump")
+        if REPO != "/repo":
+            # scratch copy of the vdump crate whose path dependency is VERIF_REPO
+            vsrc = os.path.join(self.dir, "vdump-src")
+            shutil.copytree(os.path.join(VERIF, "vdump"), vsrc, ignore=shutil.ignore_patterns("target"))
+            os.makedirs(os.path.join(self.dir, "harness", "src"), exist_ok=True)
+            for f in ("oracle.rs", "stubs.rs"):
+                shutil.copy(os.path.join(VERIF, "harness", "src", f), os.path.join(self.dir, "harness", "src", f))
+            ct = open(os.path.join(vsrc, "Cargo.toml")).read().replace('path = "/repo"', 'path = "%s"' % REPO)
+            open(os.path.join(vsrc, "Cargo.toml"), "w").write(ct)
+            mt = open(os.path.join(vsrc, "src", "main.rs")).read().replace("../../harness/src/", "../../harness/src/")
+            open(os.path.join(vsrc, "src", "main.rs"), "w").write(mt)
+        lock = os.path.join(vsrc, "Cargo.lock")
         if not os.path.exists(lock):
             shutil.copy(os.path.join(REPO, "Cargo.lock"), lock)
-        import fcntl
-        with open(os.path.join(VERIF, ".cache", "vdump.lock"), "w") as lf:
+        with open(os.path.join(VERIF, ".cache", "vdump%s.lock" % tag), "w") as lf:
             fcntl.flock(lf, fcntl.LOCK_EX)
-            p = sh(["cargo", "build", "--offline", "--manifest-path", os.path.join(VERIF, "vdump", "Cargo.toml"),
+            p = sh(["cargo", "build", "--offline", "--manifest-path", os.path.join(vsrc, "Cargo.toml"),
                     "--target-dir", tdir], check=False)
             if p.returncode != 0:
                 raise Inconclusive("vdump does not build against /repo with hooks on:\n" + p.stdout[-6000:])
@@ -392,6 +408,9 @@ class Run:
         shutil.copytree(os.path.join(VERIF, "harness"), self.crate)
         shutil.copy(self.gen_rs, os.path.join(self.crate, "src", "gen.rs"))
         shutil.copy(os.path.join(REPO, "Cargo.lock"), os.path.join(self.crate, "Cargo.lock"))
+        if REPO != "/repo":
+            ct = open(os.path.join(self.crate, "Cargo.toml")).read().replace('path = "/repo"', 'path = "%s"' % REPO)
+            open(os.path.join(self.crate, "Cargo.toml"), "w").write(ct)
         with open(os.path.join(self.crate, "src", "inst.rs"), "w") as f:
             f.write("// @generated by check.py\n#![allow(unused)]\nuse crate::{gen, templates as t, Case};\n")
             for h in harnesses:
